@@ -187,6 +187,10 @@ func runC05(args []string) error {
 			if k%5 == 4 {
 				name = fmt.Sprintf("d/e e/f%02d", k)
 			}
+			if k%4 == 3 {
+				// inputs that merely look like files of the set being written (same stem / same extension as out.par2)
+				name = []string{"out-2019.par2", "out2.par2", "outs/x.par2", "out.par2.orig", "OUT.PAR2.bak"}[(i+k)%5]
+			}
 			sz := []int{1, s - 1, s, s + 1, 2*s + 1, 16383, 16384, 16385, 32768, 5*s + 2, 40000 + rng.Intn(30000)}[rng.Intn(11)]
 			if sz < 1 {
 				sz = 1
